@@ -55,7 +55,8 @@ def setup(cls, rng):
 
 def tail_ops(rng):
     """state-advancing calls and the next state's calls, after the hostile bytes."""
-    return ["q_can_proceed", "proceed", "try_response", "q_can_proceed", "proceed", "read #5", "read #100000", "q_can_proceed", "proceed",
+    anf = "as_new_flow %s" % rng.choice(["never", "same_host"])      # permitted (and state-advancing) only when the flow is in Redirect
+    return ["q_can_proceed", "proceed", anf, "try_response", "q_can_proceed", "proceed", "read #5", "read #100000", "q_can_proceed", "proceed",
             "q_must_close", "q_close_reason", "proceed", "q_must_close"]
 
 
@@ -231,6 +232,25 @@ def special_cases(rng):
     out.append(("body_chunked", b"5\r\nhelloXX3\r\nabc\r\n0\r\n\r\n", "missing crlf after data"))
     out.append(("body_chunked", b"\r\n\r\n\r\n", "empty size lines"))
     out.append(("body_length", b"", "empty body"))
+    # well-formed redirects in every state class, so that the state-advancing calls after the server's bytes include as_new_flow
+    # (seeded change C12-14: an Expect request answered by a redirect overflowed a fixed-capacity list in as_new_flow)
+    for st in (301, 302, 303, 307, 308, 300):
+        for loc in (b"http://b.test/next", b"/same-host"):
+            head = b"HTTP/1.1 %d Moved\r\nLocation: " % st + loc + b"\r\nContent-Length: 0\r\n\r\n"
+            for cls in ("await100", "recv_get", "recv_post"):
+                out.append((cls, head, "redirect-%d" % st))
+            out.append(("await100", b"HTTP/1.1 100 Continue\r\n\r\n" + head, "continue-then-redirect-%d" % st))
+    # the fields the client interprets itself, with degenerate values: empty, white space only, empty list elements, commas only
+    # (seeded change C12-15: a list-aware Connection test that slices an empty element out of range)
+    for name in [b"Connection", b"Transfer-Encoding", b"Content-Length", b"Location", b"Expect"]:
+        for val in [b"", b" ", b"\t ", b",", b",,", b"close,", b",close", b"a,,close", b"keep-alive, ,close", b"chunked,", b",chunked", b"gzip,,chunked", b" , "]:
+            for st in (200, 302, 100, 403):
+                head = b"HTTP/1.1 %d X\r\n" % st + name + b":" + val + b"\r\n" + (b"Location: /n\r\n" if st == 302 and name != b"Location" else b"") + b"\r\nrest"
+                out.append(("recv_get", head, "degenerate-" + name.decode().lower()))
+                if st in (100, 403):
+                    out.append(("await100", head, "degenerate-" + name.decode().lower()))
+                elif name != b"Expect":
+                    out.append(("recv_post", head, "degenerate-" + name.decode().lower()))
     return out
 
 
